@@ -8,12 +8,17 @@ claimed = {
  'C03': "one block-processing step on a really assembled node (real chain, BFT module, diffdb, codec; model DB; scripted application): a block obtained from a valid successor by one symbolic deviation (any header field, payload, signature, signer, slot, aggregate commit, application verdicts; pairs in the thorough tier) is appended only if no rule is violated, and a rejected block leaves database, tip and events unchanged.",
  'C04': "deleteBlock never removes a block at or below a fully symbolic finalized height and a refused delete changes nothing; an accepted block raises the stored finalized height to max(previous, precommitted) in the same batch with a finalization event iff raised; sync helper arithmetic is under C19.",
  'C05': "apply-then-delete of a valid block restores the exact database contents (all indexes, consensus store), cached tip and BFT heights apart from the finalized marker / temp copy; diffdb Commit/RevertDiff inverse and Diff codec (harnesses in pkg/db/diffdb).",
+ 'C10': "verifier side only: smt.Verify equals a LIP-0039 reference fold for one query of any shape (heights up to 4/7), soundness of an extra / second query next to an honest proof on a two-leaf tree, and the leaf semantics of updateNode (insert, overwrite, delete, no-op, split). Tree construction over symbolic keys, history independence and Prove completeness are NOT covered (256-way key binning forks; stated in DESIGN).",
+ 'C11': "per concrete list length n (up to 4-5 quick, 8-9 thorough) and symbolic leaf contents under the collision-free hash model: Append^n = CalculateRoot = LIP-0031 reference root, size and append path, predicted append, reload, generated proofs verify and tampered ones do not, update through a proof, right witness, index arithmetic.",
+ 'C12': "staged store (diffdb) over a model backing store: Get/Has/Range/Iterate through prefix views after up to 1-3 staged operations equal a sorted-map reference, snapshot/restore, commit/re-open, the pebble scan helpers against an iterator model (natively replayed on real pebble), upperBound, batchdb prefixing.",
  'C13': "reduction of crash atomicity to the trusted atomicity of pebble's Apply: on every explored path of processValidated / deleteBlock there is exactly one batch write for a committed step and none for a rejected one, no direct writes, application commit/revert before the write, and a restart on the resulting database finds a complete tip with its revert diff and consensus window. Crash points inside pebble are outside (trusted contract).",
  'C06': "aggregate-commit acceptance (height window incl. next parameter change, weights/threshold/bit positions, signed certificate = own block), self-consistency of the node's own Aggregate/GetAggregateCommit with its verification, GetAggregateCommit height choice, singleCommitValidator soundness, pool select/upgrade/cleanup, under an algebraic BLS model cross-checked against real blst on every replay.",
  'C07': "AreDistinctHeadersContradicting: symmetry, generator separation, equality with the LIP-0014 definition and with the semantic characterisation, all six 32-bit fields symbolic.",
  'C08': "varint round trips for all 64-bit values, canonical acceptance of readUint, strict canonical decoding of Transaction up to 13/16 bytes, and generated round-trip harnesses for every *_codec.go type (lengths by pattern, contents symbolic).",
  'C09': "every generated decoder on arbitrary buffers up to 3/5(6) bytes, every codec.Reader entry point, aggregation-bitmap readers: no panic, loops within unwinding bounds.",
- 'C16': "EventLogger snapshot/restore keeps exactly pre-snapshot and unrevertible events with consecutive indices (sequences of up to 3/5 events).",
+ 'C14': "transaction pool reached from the empty pool by up to 3 operations (Add/Remove/reorg, quick; 4 thorough) over 3 transactions of 2 senders with symbolic nonce/fee/verdicts: no operation blocks (lock discipline), index agreement, bounds, replacement rule, processable runs, concurrent reorg; sender-list reference; fee priority defined.",
+ 'C15': "transaction selection by fee (real selectTransactionsByFee with scripted application verdicts) equals a reference pick sequence, size limiting, nonce grouping; no two headers produced by up to 3 consecutive forges of one generator (through initBlockHeader and the persisted GeneratorInfo) contradict. forge()/sealBlock end to end (persistence order, self-acceptance) not covered.",
+ 'C16': "EventLogger snapshot/restore keeps exactly pre-snapshot and unrevertible events with consecutive indices; a failing command leaves the staged state and events as before the command while a succeeding one keeps its writes (scripted module, 2 stores, up to 2/3 operations); deleted keys reach the state trie as deletions; ABIHandler.Init recovers an application state that is ahead of the engine. Numeric state roots (trie construction) not covered.",
  'C17': "request/response layer with a fake host: a reply arriving during send is not lost; one request vs an asynchronous responder for all interleavings within the context-switch budget with the timer firing at any later moment: no deadlock, correct correlation, no leaked pending entry.",
  'C18': "connection-gater penalty arithmetic and gates, expiry sweep, rate limiter counters and interval reset, penalty/ban => disconnect, malformed envelope / unknown procedure => ban and disconnect, with fake libp2p host/stream and the real multiaddr code.",
  'C20': "lock discipline of the block cache (no re-acquisition of a held mutex); bulk lookups (headers by IDs/heights, transactions by IDs, blocks by range) return every existing item exactly once for all interleavings, with a vector-clock race monitor whose reports are confirmed by go test -race on the native replay. General data-race freedom of the whole node is outside.",
